@@ -126,7 +126,9 @@ def _uni(rng, a, b):
 
 
 def _sig(x, n=10):
-    """round to n significant digits (what the writer prints)."""
+    """round to n significant digits (what the writer prints); n >= 17 keeps the double as it is."""
+    if n >= 17:
+        return float(x)
     return float(f"{x:.{n - 1}e}")
 
 
@@ -152,6 +154,7 @@ def gen_phonon(rng, tier, na=None):
         na = rng.randint(1, 4) if not big else rng.randint(1, 10)
     np_ = 3 * na
     nm = rng.randint(1, 4)
+    digits = 17 if rng.random() < 0.25 else 10     # 17: full-precision tokens (repr), as a dump from another program would have
     v_atom = _uni(rng, 55.0, 110.0)
     v0 = na * v_atom
     hi = _uni(rng, 1.02, 1.08)
@@ -163,12 +166,12 @@ def gen_phonon(rng, tier, na=None):
         if 0 < i < nv - 1:
             r += _uni(rng, -0.2, 0.2) * (hi - lo) / (nv - 1)
         rel.append(r)
-    volumes = [_sig(v0 * r) for r in rel]
+    volumes = [_sig(v0 * r, digits) for r in rel]
     b0 = _uni(rng, 80.0, 350.0) / RY_B3_TO_GPA
     bp = _uni(rng, 3.5, 5.0)
     e0 = -_uni(rng, 50.0, 900.0)
-    energies = [_sig(bm3_energy(v, v0, b0, bp, e0), 12) for v in volumes]
-    pressures = [_sig(bm3_pressure(v, v0, b0, bp) * RY_B3_TO_GPA * 10, 8) for v in volumes]
+    energies = [_sig(bm3_energy(v, v0, b0, bp, e0), max(12, digits)) for v in volumes]
+    pressures = [_sig(bm3_pressure(v, v0, b0, bp) * RY_B3_TO_GPA * 10, 8 if digits == 10 else 17) for v in volumes]
     qcoords = [[0.0, 0.0, 0.0]] + [[round(_uni(rng, 0, 0.5), 4) for _ in range(3)] for _ in range(nq - 1)]
     if rng.random() < 0.5:
         weights = [float(rng.randint(1, 12)) for _ in range(nq)]
@@ -190,8 +193,9 @@ def gen_phonon(rng, tier, na=None):
             modes.append([q, m, w0, g, b])
             for iv, v in enumerate(volumes):
                 x = math.log(v / v0)
-                freqs[iv][q][m] = _sig(w0 * math.exp(-g * x + b * x * x))
+                freqs[iv][q][m] = _sig(w0 * math.exp(-g * x + b * x * x), digits)
     return {
+        "digits": digits,
         "nv": nv, "nq": nq, "np": np_, "nm": nm, "na": na,
         "v0": v0, "b0": b0, "bp": bp, "e0": e0,
         "volumes": volumes, "energies": energies, "pressures": pressures,
@@ -226,13 +230,14 @@ def gen_static(rng, tier, phonon, system=None, force_lattice=None, cli_spelling=
     if system is None:
         system = rng.choice(SYSTEMS)
     integer = rng.random() < 0.15
+    digits = 17 if rng.random() < 0.25 else 10
     same_volumes = rng.random() < 0.6
     if same_volumes:
         volumes = list(phonon["volumes"])
     else:
         n = rng.randint(4, 8 if not big else 10)
         hi, lo = phonon["volumes"][0], phonon["volumes"][-1]
-        volumes = [_sig(hi * (1 + _uni(rng, -0.01, 0.01)) + (lo - hi) * i / (n - 1)) for i in range(n)]
+        volumes = [_sig(hi * (1 + _uni(rng, -0.01, 0.01)) + (lo - hi) * i / (n - 1), digits) for i in range(n)]
     v0 = phonon["v0"]
     for _attempt in range(50):
         p0, dep = _draw_params(rng, system, integer)
@@ -285,7 +290,7 @@ def gen_static(rng, tier, phonon, system=None, force_lattice=None, cli_spelling=
             names.append(prefix + from_voigt[int(k[0])] + from_voigt[int(k[1])])
         else:
             names.append(prefix + k)
-    values = [[(_sig(r[k]) if not integer else r[k]) for k in order] for r in rows]
+    values = [[(_sig(r[k], digits) if not integer else r[k]) for k in order] for r in rows]
     int_cols = [bool(integer and rng.random() < 0.6) for _ in order]
     # lattice block
     has_lattice = (rng.random() < 0.5) if force_lattice is None else force_lattice
@@ -306,14 +311,15 @@ def gen_static(rng, tier, phonon, system=None, force_lattice=None, cli_spelling=
             base[1] = base[0]
         if system == "cubic":
             base[2] = base[0]
-        lattice = [[_sig(base[i] * (v / v0) ** expo[i]) for i in range(3)] for v in volumes]
+        lattice = [[_sig(base[i] * (v / v0) ** expo[i], digits) for i in range(3)] for v in volumes]
     return {
-        "system": system, "integer": integer,
-        "vref": _sig(v0), "cellmass": _sig(phonon["na"] * _uni(rng, 12.0, 40.0), 7),
+        "system": system, "integer": integer, "digits": max(digits, phonon.get("digits", 10)) if same_volumes else digits,
+        "vref": _sig(v0, digits), "cellmass": _sig(phonon["na"] * _uni(rng, 12.0, 40.0), 7),
         "volumes": volumes, "keys": order, "names": names, "values": values,
         "int_cols": int_cols, "lattice": lattice, "lattice_expo": expo,
         "full": [{k: r[k] for k in ALL21} for r in rows],
-        "title": rng.choice(["V_0 N cellmass sample", "V_0    N     cellmass   Mg2Ca2Si4O12", "# static table"]),
+        "title": rng.choice(["V_0 N cellmass sample", "V_0    N     cellmass   Mg2Ca2Si4O12", "# static table", "V_0 N cellmass sample", "", "   ",
+                             "\"static\" table, 2nd try", "it's a table"]),
         "pad": rng.choice([1, 2, 4]),
     }
 
@@ -323,8 +329,12 @@ def admissible_orders(method, nv):
         return [k for k in (2, 3, 4, 5) if nv > k]
     if method == "lsq_poly":
         return [k for k in (1, 2, 3, 4, 5) if k < nv]
-    # node-based: the order is the number of nodes
-    return [k for k in range(2, 9) if k < nv]
+    # node-based: the order caps the number of nodes (every ceil(nv/order)-th volume is one); an order >= nv makes every volume a node,
+    # which is admitted by the schema (integer >= 1) and by the code
+    base = [k for k in range(2, 9) if k < nv]
+    if method in ("pchip", "akima", "hermite"):
+        return base + [nv, nv + 3]
+    return base + ([nv, nv + 1] if nv <= 6 else [])    # global polynomials through more than 6 nodes are documented as unstable: not asked for
 
 
 NICE_DP = [0.1, 0.125, 0.2, 0.25, 0.5, 1.0, 1.25, 2.0, 2.5, 5.0, 10.0]
@@ -465,6 +475,20 @@ def gen_output(rng, full=False):
                 entries.append(rng.choice(rule["keywords"]))
         rng.shuffle(entries)
         out[name] = entries
+    if len(out) == 2 and rng.random() < 0.1:
+        # one explicit file name used under both bases: the documented order of write_output (pressure base, then volume base) decides
+        both = [r for r in rules()["rules"] if "tp" in r["bases"] and "tv" in r["bases"] and r["kind"] == "value"]
+        if both:
+            r = rng.choice(both)
+            for name in list(out):
+                out[name].append({"keyword": rng.choice(r["keywords"]), "fname": "shared_%s.txt" % r["attr"][:6]})
+    if len(out) == 2 and not full and rng.random() < 0.08:
+        # the same list under both bases (in YAML spelled with an anchor: one list OBJECT after loading)
+        both_kw = {kw for r in rules()["rules"] if "tp" in r["bases"] and "tv" in r["bases"] for kw in r["keywords"]}
+        lst = [e for e in out["pressure_base"] if (e if isinstance(e, str) else e["keyword"]) in both_kw and not (isinstance(e, dict) and e.get("fname"))]
+        if lst:
+            out["pressure_base"] = lst
+            out["volume_base"] = json.loads(json.dumps(lst))
     if rng.random() < 0.5:
         out = {k: out[k] for k in reversed(list(out))}
     return out
@@ -497,9 +521,11 @@ def gen_world(rng, tier, name, **kw):
 # writers (stub of the upstream tools)
 # ---------------------------------------------------------------------------
 
-def fmt_num(x, integer_looking=False):
+def fmt_num(x, integer_looking=False, digits=10):
     if integer_looking:
         return "%d" % int(round(x))
+    if digits >= 17:
+        return repr(float(x))
     s = "%.10g" % x
     if "." not in s and "e" not in s and "n" not in s and "i" not in s:
         s += ".0"
@@ -514,11 +540,13 @@ def phonon_text(ph):
     lines.append("%12d%12d%12d%12d%8d" % (ph["nv"], ph["nq"], ph["np"], ph["nm"], ph["na"]))
     lines.append("")
     for iv in range(ph["nv"]):
-        lines.append("P= %18s  V= %18s  E= %20s  " % (fmt_num(ph["pressures"][iv]), fmt_num(ph["volumes"][iv]), "%.12g" % ph["energies"][iv]))
+        dg = ph.get("digits", 10)
+        lines.append("P= %18s  V= %18s  E= %20s  " % (fmt_num(ph["pressures"][iv], False, dg), fmt_num(ph["volumes"][iv], False, dg),
+                                                      ("%.12g" % ph["energies"][iv]) if dg < 17 else repr(float(ph["energies"][iv]))))
         for q in range(ph["nq"]):
             lines.append("   ".join("%12.7f" % c for c in ph["qcoords"][q]))
             for m in range(ph["np"]):
-                lines.append("    " + fmt_num(ph["freqs"][iv][q][m]))
+                lines.append("    " + fmt_num(ph["freqs"][iv][q][m], False, dg))
     lines.append("")
     lines.append("weight")
     for q in range(ph["nq"]):
@@ -528,15 +556,16 @@ def phonon_text(ph):
 
 def static_text(st):
     pad = " " * st["pad"]
+    dg = st.get("digits", 10)
     lines = [st["title"]]
-    lines.append(f"{fmt_num(st['vref'])}{pad}{len(st['volumes'])}{pad}{fmt_num(st['cellmass'])}")
+    lines.append(f"{fmt_num(st['vref'], False, dg)}{pad}{len(st['volumes'])}{pad}{fmt_num(st['cellmass'])}")
     lines.append(pad.join(["V"] + st["names"]))
     for v, row in zip(st["volumes"], st["values"]):
-        lines.append(pad.join([fmt_num(v)] + [fmt_num(x, ic) for x, ic in zip(row, st["int_cols"])]))
+        lines.append(pad.join([fmt_num(v, False, dg)] + [fmt_num(x, ic, dg) for x, ic in zip(row, st["int_cols"])]))
     if st["lattice"] is not None:
         lines.append("lattice_a lattice_b lattice_c")
         for row in st["lattice"]:
-            lines.append(pad.join(fmt_num(x) for x in row))
+            lines.append(pad.join(fmt_num(x, False, dg) for x in row))
     return "\n".join(lines) + "\n"
 
 
@@ -589,6 +618,12 @@ def yaml_text(obj, indent=0):
 def settings_text(world):
     if world["spelling"] == "json":
         return json.dumps(world["settings"], indent=2) + "\n"
+    out = world["settings"].get("output")
+    if out and len(out) == 2 and out.get("pressure_base") and out.get("pressure_base") == out.get("volume_base"):
+        # spelled with a YAML anchor: both bases refer to ONE list object once loaded
+        rest = {k: v for k, v in world["settings"].items() if k != "output"}
+        first, second = list(out)
+        return (yaml_text(rest) + "\noutput:\n  " + first + ": &outputs\n" + yaml_text(out[first], 2) + "\n  " + second + ": *outputs\n")
     return yaml_text(world["settings"]) + "\n"
 
 
